@@ -1,1 +1,241 @@
-/- C11 — property theorems (to be written) -/
+/-
+  C11 — arithmetic on boxes and on fibers agrees with arithmetic on the values.
+  Property theorems only; helper lemmas live in FtProofs/Lemmas/Arith.lean.
+
+  Part A is polymorphic in the value algebra `Alg ν ε` (ints, floats, … — whatever the
+  underlying Python operators do, including raising), Part B in the leaf values `ν` (with the
+  algebraic laws a statement needs as explicit hypotheses) and, where only order matters, in the
+  coordinates.
+-/
+import FtProofs.Lemmas.Arith
+set_option linter.unusedSectionVars false
+set_option linter.unusedSimpArgs false
+set_option linter.unusedVariables false
+namespace Ft
+open StrictTotal
+
+/-! ## Part A — boxes and elements -/
+
+section
+variable {ν ε : Type} (A : Alg ν ε)
+
+theorem Res.rebox_rebox (r : Res ν ε) : r.rebox.rebox = r.rebox := by cases r <;> rfl
+
+/-- **Operator table (partial).** For every operator × operand-kind combination in
+    `binSupported` (at least one operand a box or an element), the expression evaluates to a box
+    holding the result of the same operator on the underlying values — or raises exactly what the
+    value operator raises.  The combinations outside `binSupported` are the gap, see
+    `box_op_unsupported_raises`. -/
+theorem box_op_table_partial (op : BinOp) (ka kb : Kind) (x y : ν)
+    (hk : ¬ (ka = .S ∧ kb = .S)) (h : binSupported op ka kb = true) :
+    pyBin A op ka kb x y = binSpec A op x y := by
+  cases op <;> cases ka <;> cases kb <;>
+    simp_all [binSupported, pyBin, binSpec, opPS, opSP, opPP, opES, opSE, opEE, opEP, opPE,
+      Kind.hasOp, Kind.hasROp, Res.rebox_rebox]
+
+/-- The gap of `box_op_table_partial` is exact: every other combination raises TypeError today
+    (`//` everywhere; `/` and `<< & |` with a scalar on the left or an element on either side). -/
+theorem box_op_unsupported_raises (op : BinOp) (ka kb : Kind) (x y : ν)
+    (hk : ¬ (ka = .S ∧ kb = .S)) (h : binSupported op ka kb = false) :
+    pyBin A op ka kb x y = .typeError := by
+  cases op <;> cases ka <;> cases kb <;>
+    simp_all [binSupported, pyBin, opPS, opSP, opPP, opES, opSE, opEE, opEP, opPE,
+      Kind.hasOp, Kind.hasROp, Res.rebox]
+
+/-- **Comparison table (full).** All six comparisons, all operand-kind combinations: the result
+    is the comparison of the underlying values, given the one law of the value order that
+    Python's reflected dispatch relies on (`y > x` is `x < y`, …). -/
+theorem box_cmp_table (hsw : ∀ c x y, A.cmp c.swap y x = A.cmp c x y)
+    (c : CmpOp) (ka kb : Kind) (x y : ν) : pyCmp A c ka kb x y = A.cmp c x y := by
+  cases ka <;> cases kb <;>
+    simp [pyCmp, cmpSS, cmpPS, cmpSP, cmpPP, cmpES, cmpSE, cmpEE, cmpEP, cmpPE, hsw]
+
+/-- **In-place forms (partial).** For the combinations in `iopSupported` (`+= -= *=` on a box or
+    an element with any right operand; `<<=` on a box from a box or scalar) the statement leaves
+    the name bound to the same object whose box now holds the operator's result (`<<=`: the new
+    value), or raises what the value operator raises and changes nothing. -/
+theorem inplace_same_ref_partial (i : IOp) (ka kb : Kind) (x y : ν)
+    (h : iopSupported i ka kb = true) : pyIop A i ka kb x y = iopSpec A i x y := by
+  cases i <;> cases ka <;> cases kb <;>
+    simp_all [iopSupported, pyIop, iopP, iopE, iopSpec, IOp.bin, opSS, opSE, opSP,
+      Kind.hasOp, Kind.hasROp] <;>
+    (split <;> simp_all [Res.rebox, Res.store])
+
+/-- `<<=` on a box replaces its value (right operand a box or a scalar) and keeps the box. -/
+theorem ilshift_replaces_partial (kb : Kind) (x y : ν) (hkb : kb ≠ .E) :
+    pyIop A .ishl .P kb x y = .done .same (.val y) := by
+  cases kb <;> simp_all [pyIop, iopP]
+
+/-- Today's `CoordPayload.__ilshift__`: from an element it assigns but the statement rebinds the
+    name to `None`; from anything else it *adds* (and rebinds to `None`). -/
+theorem today_elem_ilshift (x y : ν) :
+    pyIop A .ishl .E .E x y = .done .none (.val y) ∧
+    (∀ kb v, kb ≠ .E → A.bin .add x y = .ok v → pyIop A .ishl .E kb x y = .done .none (.val v)) := by
+  refine ⟨by simp [pyIop, iopE], ?_⟩
+  intro kb v hkb hv
+  cases kb <;>
+    simp_all [pyIop, iopE, pyBin, opPS, opPP, opSS, Kind.hasOp, Res.rebox, Res.storeNone]
+
+/-- Today's `Payload.__ilshift__` given an element stores the element object, not its value. -/
+theorem today_box_ilshift_from_elem (x y : ν) :
+    pyIop A .ishl .P .E x y = .done .same .elemObj := by
+  simp [pyIop, iopP]
+
+/-- Today `/=` on an element raises TypeError (the class only has the Python 2 name `__idiv__`). -/
+theorem today_elem_idiv_raises (kb : Kind) (x y : ν) : pyIop A .idiv .E kb x y = .typeError := by
+  cases kb <;>
+    simp [pyIop, iopE, pyBin, opES, opEE, opEP, Kind.hasOp, Kind.hasROp, Res.rebox, Res.fallback]
+
+end
+
+/-! ### non-vacuity of Part A: an integer algebra -/
+
+/-- `+ - *` and the comparisons of `Int`; `/` raising on a zero divisor (exact quotients only) -/
+def intAlg : Alg Int String where
+  bin := fun op x y =>
+    match op with
+    | .add => .ok (x + y)
+    | .sub => .ok (x - y)
+    | .mul => .ok (x * y)
+    | .div => if y = 0 then .error "ZeroDivisionError" else .ok (x / y)
+    | .fdiv => if y = 0 then .error "ZeroDivisionError" else .ok (Int.fdiv x y)
+    | _ => .error "not modelled"
+  cmp := fun c x y =>
+    match c with
+    | .eq => decide (x = y) | .ne => decide (x ≠ y) | .lt => decide (x < y)
+    | .le => decide (x ≤ y) | .gt => decide (x > y) | .ge => decide (x ≥ y)
+
+theorem intAlg_swap : ∀ c x y, intAlg.cmp (CmpOp.swap c) y x = intAlg.cmp c x y := by
+  intro c x y
+  cases c <;> simp [intAlg, CmpOp.swap, eq_comm]
+
+example : pyBin intAlg .sub .S .E 12 5 = .boxed 7 :=
+  box_op_table_partial intAlg .sub .S .E 12 5 (by decide) (by decide)
+example : pyBin intAlg .div .P .S 12 0 = .raised "ZeroDivisionError" :=
+  box_op_table_partial intAlg .div .P .S 12 0 (by decide) (by decide)
+example : pyBin intAlg .div .S .P 12 5 = .typeError :=
+  box_op_unsupported_raises intAlg .div .S .P 12 5 (by decide) (by decide)
+example : pyCmp intAlg .lt .S .E 4 5 = true := by
+  rw [box_cmp_table intAlg intAlg_swap]; decide
+example : pyIop intAlg .imul .E .P 12 5 = .done .same (.val 60) :=
+  inplace_same_ref_partial intAlg .imul .E .P 12 5 (by decide)
+example : pyIop intAlg .ishl .E .S 12 5 = .done .none (.val 17) :=
+  (today_elem_ilshift intAlg 12 5).2 .S 17 (by decide) rfl
+
+/-! ## Part B — fibers -/
+
+section
+variable {κ ν : Type} [LT κ] [DecidableRel (α := κ) (· < ·)] [DecidableEq κ] [StrictTotal κ]
+variable [DecidableEq ν]
+
+theorem ne_of_not_isEmpty_zero (dflt : ν) (t : Tree κ ν 0) (h : isEmpty dflt 0 t = false) :
+    (show ν from t) ≠ dflt := by
+  simpa [isEmpty] using h
+
+/-- the leaf step of a fiber sum -/
+theorem addT_leaf [Add ν] (dflt : ν) (x y : ν) (q : List κ) (h : x ≠ dflt ∨ y ≠ dflt) :
+    denseAt (κ := κ) dflt 0 (addT (κ := κ) dflt 0 x y) q =
+      addExpect dflt (denseAt (κ := κ) dflt 0 x q) (denseAt (κ := κ) dflt 0 y q) := by
+  show x + y = if x ≠ dflt ∨ y ≠ dflt then x + y else dflt
+  rw [if_pos h]
+
+/-- lookup in a fiber sum: present iff presented on a side; the payload is the sum of the two
+    presented payloads, an absent side contributing the default tree -/
+theorem lookup_addT [Add ν] (dflt : ν) (d : Nat) (a b : Tree κ ν (d + 1))
+    (ha : WF (d + 1) a) (hb : WF (d + 1) b) (c : κ) :
+    lookup (show List (κ × Tree κ ν d) from addT dflt (d + 1) a b) c =
+      if (lookup (present dflt d a) c).isSome = true ∨ (lookup (present dflt d b) c).isSome = true then
+        some (addT dflt d ((lookup (present dflt d a) c).getD (dfltTree dflt d))
+                          ((lookup (present dflt d b) c).getD (dfltTree dflt d)))
+      else none := by
+  have hsa := sorted_present dflt d a ((WF_succ d a).1 ha).1
+  have hsb := sorted_present dflt d b ((WF_succ d b).1 hb).1
+  have hm := lookup_orMerge (present dflt d a) (present dflt d b) hsa hsb c
+  have hmap := lookup_map_val (orMerge (present dflt d a) (present dflt d b))
+    (fun _ (v : Mask × Option (Tree κ ν d) × Option (Tree κ ν d)) =>
+      addT dflt d (v.2.1.getD (dfltTree dflt d)) (v.2.2.getD (dfltTree dflt d))) c
+  have hdef : (show List (κ × Tree κ ν d) from addT dflt (d + 1) a b) =
+      (orMerge (present dflt d a) (present dflt d b)).map
+        (fun r => (r.1, addT dflt d (r.2.2.1.getD (dfltTree dflt d)) (r.2.2.2.getD (dfltTree dflt d)))) := by
+    rw [addT]
+  rw [hdef, hmap]
+  cases hl : lookup (orMerge (present dflt d a) (present dflt d b)) c with
+  | none =>
+    rw [hl] at hm
+    by_cases hcond : (lookup (present dflt d a) c).isSome = true ∨ (lookup (present dflt d b) c).isSome = true
+    · rw [if_pos hcond] at hm; simp at hm
+    · rw [if_neg hcond]; rfl
+  | some row =>
+    rw [hl] at hm
+    by_cases hcond : (lookup (present dflt d a) c).isSome = true ∨ (lookup (present dflt d b) c).isSome = true
+    · rw [if_pos hcond] at hm
+      rw [if_pos hcond]
+      simp only [Option.map_some, Option.some.injEq, Prod.mk.injEq] at hm
+      simp [hm.1, hm.2]
+    · rw [if_neg hcond] at hm; simp at hm
+
+/-- **Fiber + fiber is the elementwise sum over the union of coordinates** (any depth, any
+    default): at every point the dense view of `a + b` is the sum of the operands' dense views
+    wherever either operand is non-default (the other side contributing its default), and the
+    default elsewhere. -/
+theorem fiber_add_spec [Add ν] (dflt : ν) : ∀ (d : Nat) (a b : Tree κ ν (d + 1)),
+    WF (d + 1) a → WF (d + 1) b → ∀ p : List κ,
+    denseAt dflt (d + 1) (addT dflt (d + 1) a b) p =
+      addExpect dflt (denseAt dflt (d + 1) a p) (denseAt dflt (d + 1) b p) := by
+  intro d
+  induction d with
+  | zero =>
+    intro a b ha hb p
+    cases p with
+    | nil => simp [denseAt_nil, addExpect]
+    | cons c q =>
+      have hsa := ((WF_succ 0 a).1 ha).1
+      have hsb := ((WF_succ 0 b).1 hb).1
+      rw [denseAt_cons, lookup_addT dflt 0 a b ha hb c,
+        ← denseAt_present dflt 0 a hsa c q, ← denseAt_present dflt 0 b hsb c q]
+      by_cases hcond : (lookup (present dflt 0 a) c).isSome = true ∨ (lookup (present dflt 0 b) c).isSome = true
+      · rw [if_pos hcond]
+        apply addT_leaf
+        rcases hcond with h | h
+        · left
+          obtain ⟨t, ht⟩ := Option.isSome_iff_exists.1 h
+          rw [ht]; exact ne_of_not_isEmpty_zero dflt t (not_isEmpty_of_lookup_present ht)
+        · right
+          obtain ⟨t, ht⟩ := Option.isSome_iff_exists.1 h
+          rw [ht]; exact ne_of_not_isEmpty_zero dflt t (not_isEmpty_of_lookup_present ht)
+      · rw [if_neg hcond]
+        have h1 : lookup (present dflt 0 a) c = none := by
+          cases h : lookup (present dflt 0 a) c with
+          | none => rfl
+          | some _ => exact absurd (Or.inl (by simp [h])) hcond
+        have h2 : lookup (present dflt 0 b) c = none := by
+          cases h : lookup (present dflt 0 b) c with
+          | none => rfl
+          | some _ => exact absurd (Or.inr (by simp [h])) hcond
+        simp [h1, h2, denseAt_dfltTree, addExpect]
+  | succ d ih =>
+    intro a b ha hb p
+    cases p with
+    | nil => simp [denseAt_nil, addExpect]
+    | cons c q =>
+      have hsa := ((WF_succ (d + 1) a).1 ha).1
+      have hsb := ((WF_succ (d + 1) b).1 hb).1
+      rw [denseAt_cons, lookup_addT dflt (d + 1) a b ha hb c,
+        ← denseAt_present dflt (d + 1) a hsa c q, ← denseAt_present dflt (d + 1) b hsb c q]
+      by_cases hcond : (lookup (present dflt (d + 1) a) c).isSome = true ∨
+          (lookup (present dflt (d + 1) b) c).isSome = true
+      · rw [if_pos hcond]
+        exact ih _ _ (WF_getD_present ha c) (WF_getD_present hb c) q
+      · rw [if_neg hcond]
+        have h1 : lookup (present dflt (d + 1) a) c = none := by
+          cases h : lookup (present dflt (d + 1) a) c with
+          | none => rfl
+          | some _ => exact absurd (Or.inl (by simp [h])) hcond
+        have h2 : lookup (present dflt (d + 1) b) c = none := by
+          cases h : lookup (present dflt (d + 1) b) c with
+          | none => rfl
+          | some _ => exact absurd (Or.inr (by simp [h])) hcond
+        simp [h1, h2, denseAt_dfltTree, addExpect]
+
+end
+end Ft
